@@ -386,10 +386,12 @@ def direct(ctx, op, st, kind, want, c):
             except Exception:
                 pass  # the successor of an inapplicable action is undefined; an evaluation error is tolerated
     else:
+        flags = [{}, {"skip_validation": True}, {"allow_inapplicable_actions": True},
+                 {"skip_validation": True, "allow_inapplicable_actions": True}][ctx.s("ops").draw(4)]
         try:
-            r = op.apply(st)
+            r = op.apply(st, **flags)  # a fresh, never grounded operator
         except Exception as e:
-            raise Violation("C04/applicable-action-refused", site, f"{C.fmt_call(*c)}: {type(e).__name__}: {e}")
+            raise Violation("C04/applicable-action-refused", site, f"{C.fmt_call(*c)} {flags}: {type(e).__name__}: {e}")
         got = C.abs_state(r, site, ID)
         if not interp.state_eq(got, want):
             raise Violation("C04/step-successor-differs", site, f"{C.fmt_call(*c)}: {interp.state_diff(got, want)}")
